@@ -7,11 +7,13 @@ P3 == {1, 2, 3}
 DevIdeal == {}
 DevRace == {"RestoreRaceOnStartup"}
 DevSnap == {"BootstrapUnderSnapshot"}
-DevAsIs == {"RestoreRaceOnStartup", "BootstrapUnderSnapshot"}
+DevAsIs == {"RestoreRaceOnStartup", "BootstrapUnderSnapshot", "BootcheckNeverHits"}
+DevNever == {"BootcheckNeverHits"}
+DevSnapNever == {"BootstrapUnderSnapshot", "BootcheckNeverHits"}
 
 ScnAll == [bak : BOOLEAN, boot : BOOLEAN, cursor : BOOLEAN]
 ScnNoCursor == [bak : BOOLEAN, boot : BOOLEAN, cursor : {FALSE}]
 ScnBak == [bak : {TRUE}, boot : {TRUE}, cursor : {FALSE}]
-ScnCursor == [bak : {FALSE}, boot : {FALSE}, cursor : {TRUE}]
+ScnCursor == [bak : {FALSE}, boot : BOOLEAN, cursor : {TRUE}]
 ScnSafe == [bak : {FALSE}, boot : BOOLEAN, cursor : {FALSE}]
 =============================================================================
